@@ -3,11 +3,12 @@
   Property theorems only (CBOR side of psatoken/encoding; helper lemmas in Psa/Proofs/Enc*.lean).
   Quantifiers: every struct shape (any nesting of embedded structs, any number of fields below 2³²),
   every value of it (every subset of optional fields, every typed field value), every entry count.
-  The JSON side of the package is not modelled: it is decided on the implementation by the harness
-  oracles (see DESIGN.md).
+  The JSON side is modelled at the level of JSON trees (Psa/Model/EncodingJson.lean; the text layer is
+  Go's encoding/json): theorems `json_*` below.
 -/
 import Psa.Proofs.EncPlain
 import Psa.Tie.Encoding
+import Psa.Proofs.EncJson
 namespace Psa.Props.C15
 open Psa Psa.Model Psa.Model.Enc Psa.Proofs.Enc
 
@@ -70,6 +71,32 @@ theorem duplicate_key_is_error (fs : List (Int × Bytes)) (hr : RawOK fs) (hdup 
 theorem missing_mandatory_is_error (fs : List FieldSpec) (m : OMap) (f : FieldSpec) (hf : f ∈ fs)
     (ho : f.omitempty = false) (hm : m.get f.key = none) : ∀ r, popFields fs m ≠ .ok r :=
   popFields_missing_any fs m f hf ho hm
+
+/-! ### JSON side (tree level) -/
+
+/-- **JSON round trip, including the all-empty struct** -/
+theorem json_populate_serialize (sh : EncJ.ShapeJ) (v : SVal) (hf : Proofs.EncJ.Fits sh v)
+    (hn : ((Proofs.EncJ.specs sh).map (·.name)).Nodup) :
+    ∃ j, EncJ.serialize sh v = .ok j ∧ EncJ.populate sh j = .ok v :=
+  Proofs.EncJ.populate_serialize sh v hf hn
+
+/-- **JSON: one object, union of outer and embedded fields in declaration order, omitempty honoured** -/
+theorem json_serialize_is_plain_object (sh : EncJ.ShapeJ) (v : SVal) (j : Json) (hf : Proofs.EncJ.Fits sh v)
+    (hn : ((Proofs.EncJ.specs sh).map (·.name)).Nodup) (h : EncJ.serialize sh v = .ok j) :
+    j = .obj (Proofs.EncJ.present (Proofs.EncJ.specs sh) (Proofs.EncJ.flat v)) :=
+  Proofs.EncJ.serialize_is_plain_object sh v j hf hn h
+
+/-- **JSON: a missing non-optional member is an error** -/
+theorem json_missing_mandatory_is_error (fs : List EncJ.FieldSpecJ) (m : EncJ.JMap) (f : EncJ.FieldSpecJ) (hf : f ∈ fs)
+    (ho : f.omitempty = false) (hm : m.get f.name = none) : ∀ r, EncJ.popFields fs m ≠ .ok r :=
+  Proofs.EncJ.popFields_missing_any fs m f hf ho hm
+
+/-- the JSON ordered map keeps `Keys` and `Fields` in agreement under `Add` and `Delete` -/
+theorem json_omap_invariant :
+    Proofs.EncJ.JInv EncJ.JMap.empty ∧
+    (∀ m m' k v, Proofs.EncJ.JInv m → m.add k v = .ok m' → Proofs.EncJ.JInv m') ∧
+    (∀ m k, Proofs.EncJ.JInv m → Proofs.EncJ.JInv (m.delete k)) :=
+  ⟨Proofs.EncJ.inv_empty, fun m m' k v hi h => Proofs.EncJ.add_inv m m' k v hi h, fun m k hi => Proofs.EncJ.delete_inv m k hi⟩
 
 /-! non-vacuity: a two-level shape (outer, embedded, embedded-in-embedded) with optional fields absent and present
     meets the hypotheses, and the all-empty value of an all-optional shape does too -/
